@@ -163,7 +163,7 @@ Lemma parse_next_word_eq f bt s :
               if is_whitespace d then POk (WValue [c_star]) r3
               else
                 match (if d =? c_lbrace then parse_braced_word bt r3
-                       else if d =? c_dquote then parse_quoted isa f bt (tl r3) tk_new
+                       else if d =? c_dquote then parse_quoted isa f bt true (tl r3) tk_new
                        else parse_bare isa f bt false r3 tk_new) with
                 | POk w rest => POk (WExpand w) rest
                 | PErr m => PErr m
@@ -171,7 +171,7 @@ Lemma parse_next_word_eq f bt s :
                 end
           end
         else parse_braced_word bt s
-      else if c =? c_dquote then parse_quoted isa f bt r tk_new
+      else if c =? c_dquote then parse_quoted isa f bt true r tk_new
       else parse_bare isa f bt false s tk_new
   | [] => parse_bare isa f bt false s tk_new
   end.
